@@ -195,6 +195,12 @@ func (ff *FuncFacts) rawRange(v ssa.Value, at *ssa.BasicBlock, depth int, tr Int
 					return Interval{n, n}
 				}
 			}
+			// a slice of elements of size s >= 2 has len <= MaxInt/s (its backing store fits the address space)
+			if st, ok := x.Call.Args[0].Type().Underlying().(*types.Slice); ok {
+				if sz := types.SizesFor("gc", "amd64").Sizeof(st.Elem()); sz >= 2 {
+					return Interval{big.NewInt(0), new(big.Int).Div(maxLen, big.NewInt(sz))}
+				}
+			}
 			return Interval{big.NewInt(0), maxLen}
 		}
 	case *ssa.Convert:
